@@ -8,7 +8,10 @@
 //! - UNE-EN ISO 13770:2017 para elementos en contacto con el terremo
 #![allow(non_snake_case)]
 
+#[cfg(not(kani))]
 use std::collections::HashMap;
+#[cfg(kani)]
+use crate::kani_models::HashMap;
 
 use log::{debug, info, warn};
 use serde::{Deserialize, Serialize};
